@@ -103,13 +103,53 @@ func DrawWorld(t *rapid.T, cfg WorldCfg) (*World, *Drawn) {
 		}
 		spec.SameSigner = rapid.IntRange(0, 3).Draw(t, "samesigner") == 0
 	}
+	// five distinct instants anywhere inside the wide windows, drawn first so that validity periods can be laid around them
+	var times *verify.TimeSet
+	tight := false
+	if !cfg.Simple {
+		span := int64(Wide.NotAfter.Sub(Wide.NotBefore)/time.Second) - 20
+		pick := func(label string) time.Time {
+			return Wide.NotBefore.Add(time.Duration(10+rapid.Int64Range(0, span).Draw(t, label)) * time.Second)
+		}
+		times = &verify.TimeSet{PckCertChain: pick("tChain"), TcbInfo: pick("tTcb"), QeIdentity: pick("tQe"), PckCrl: pick("tPckCrl"), RootCaCrl: pick("tRootCrl")}
+		// a quarter of the worlds are "freshly rolled over": the validity periods of the leaf and of the two collateral
+		// signers (when they are two certificates) are short and lie around their OWN judging time only
+		if !spec.SameSigner && !cfg.RealNow && rapid.IntRange(0, 3).Draw(t, "tightValidityPeriods") == 0 {
+			tight = true
+			around := func(at time.Time, label string) Window {
+				before := rapid.SampledFrom([]time.Duration{time.Second, time.Hour, 30 * 24 * time.Hour}).Draw(t, label+"-before")
+				after := rapid.SampledFrom([]time.Duration{time.Second, time.Hour, 30 * 24 * time.Hour}).Draw(t, label+"-after")
+				return Window{at.Add(-before).Truncate(time.Second), at.Add(after).Truncate(time.Second).Add(time.Second)}
+			}
+			spec.TcbW, spec.QeW = around(times.TcbInfo, "tcbSigner"), around(times.QeIdentity, "qeSigner")
+			d.add(true, "short-validity-periods-around-own-times")
+		}
+	}
 	p := NewPKI(spec)
 	w := NewWorld(p, s)
+	if tight {
+		before := rapid.SampledFrom([]time.Duration{time.Second, time.Hour, 30 * 24 * time.Hour}).Draw(t, "leaf-before")
+		after := rapid.SampledFrom([]time.Duration{time.Second, time.Hour, 30 * 24 * time.Hour}).Draw(t, "leaf-after")
+		w.LeafSpec.W = Window{times.PckCertChain.Add(-before).Truncate(time.Second), times.PckCertChain.Add(after).Truncate(time.Second).Add(time.Second)}
+	}
 	if len(spec.RootCRLDP) >= 2 && rapid.Bool().Draw(t, "leadingDistributionPointsFail") {
 		w.RootDPFail = rapid.IntRange(1, len(spec.RootCRLDP)-1).Draw(t, "failingDPs")
 		d.add(true, "leading-crl-distribution-points-fail")
 	}
 	q := w.Q
+	// raw identifiers whose bytes happen to look like a DER OCTET STRING header of the remaining length: they are plain
+	// values of exactly the right size
+	if rapid.IntRange(0, 7).Draw(t, "identifiersLookLikeDER") == 0 {
+		switch s.Intn(3) {
+		case 0:
+			w.Sgx.Fmspc[0], w.Sgx.Fmspc[1] = 0x04, 0x04
+		case 1:
+			w.Sgx.PPID[0], w.Sgx.PPID[1] = 0x04, 0x0e
+		default:
+			w.Sgx.PceID = [2]byte{0x04, 0x00}
+		}
+		d.add(true, "identifier-looks-like-der")
+	}
 	// serial numbers are only unique per honest CA: a third of the worlds re-use one of two leaf serials, so that
 	// different certificates (other key, other SGX values) of one issuer collide on (issuer, serial) within a process
 	if rapid.IntRange(0, 2).Draw(t, "sharedLeafSerial") == 0 {
@@ -167,6 +207,26 @@ func DrawWorld(t *rapid.T, cfg WorldCfg) (*World, *Drawn) {
 		d.add(w.ChainNUL, "nul")
 		w.Sgx.WithPlatformIns = rapid.Bool().Draw(t, "platformInstance")
 		w.Sgx.WithConfig = rapid.Bool().Draw(t, "configuration")
+		// the order of the elements inside the certificate's SGX extension is free
+		if rapid.IntRange(0, 2).Draw(t, "sgxExtensionOrder") == 0 {
+			top := SgxTree(&w.Sgx)
+			tcb := top.Kids[1].Kids[1]
+			for i := len(tcb.Kids) - 1; i > 0; i-- {
+				j := s.Intn(i + 1)
+				tcb.Kids[i], tcb.Kids[j] = tcb.Kids[j], tcb.Kids[i]
+			}
+			for i := len(top.Kids) - 1; i > 0; i-- {
+				j := s.Intn(i + 1)
+				top.Kids[i], top.Kids[j] = top.Kids[j], top.Kids[i]
+			}
+			w.SgxDER = top.Encode()
+			d.add(true, "sgx-extension-elements-permuted")
+		}
+		// how the CRLs spell their issuer and whether they carry a number is free too
+		w.CRLIssuerUTF8 = rapid.IntRange(0, 3).Draw(t, "crlIssuerUTF8") == 0
+		w.CRLNoNumber = rapid.SampledFrom([]int{0, 0, 0, 1, 2, 3}).Draw(t, "crlNoNumber")
+		d.add(w.CRLIssuerUTF8, "crl-issuer-name-in-utf8string")
+		d.add(w.CRLNoNumber != 0, "crl-without-number")
 		// the leaf's own CRL distribution point is not what decides which PCK CRL is asked for (the issuing CA is)
 		switch rapid.IntRange(0, 5).Draw(t, "leafCrlDP") {
 		case 1:
@@ -275,12 +335,15 @@ func DrawWorld(t *rapid.T, cfg WorldCfg) (*World, *Drawn) {
 		d.add(n1+n2 > 0, "crl-entries")
 		w.CrossIssuerSerials = rapid.IntRange(0, 2).Draw(t, "crossIssuerSerials") == 0
 		d.add(w.CrossIssuerSerials, "crl-lists-serials-of-the-other-issuer")
-		// five distinct instants anywhere inside the wide windows
 		span := int64(Wide.NotAfter.Sub(Wide.NotBefore)/time.Second) - 20
-		pick := func(label string) time.Time {
-			return Wide.NotBefore.Add(time.Duration(10+rapid.Int64Range(0, span).Draw(t, label)) * time.Second)
+		w.Times = *times
+		if tight {
+			// documents and lists issued shortly before, due shortly after their own judging time
+			w.TcbInfo.IssueDate, w.TcbInfo.NextUpdate = w.Times.TcbInfo.Add(-time.Second).Truncate(time.Second), w.Times.TcbInfo.Add(time.Hour)
+			w.QeID.IssueDate, w.QeID.NextUpdate = w.Times.QeIdentity.Add(-time.Second).Truncate(time.Second), w.Times.QeIdentity.Add(time.Hour)
+			w.PckCrl.NextUpdate, w.RootCrl.NextUpdate = w.Times.PckCrl.Add(time.Hour), w.Times.RootCaCrl.Add(time.Hour)
+			w.PckCrl.ThisUpdate, w.RootCrl.ThisUpdate = w.Times.PckCrl.Add(-time.Hour), w.Times.RootCaCrl.Add(-time.Hour)
 		}
-		w.Times = verify.TimeSet{PckCertChain: pick("tChain"), TcbInfo: pick("tTcb"), QeIdentity: pick("tQe"), PckCrl: pick("tPckCrl"), RootCaCrl: pick("tRootCrl")}
 		// revocation dates of the (unrelated) entries are informational: anywhere, including after the judging times
 		for i := range w.PckCrl.Revoked {
 			w.PckCrl.RevokedAt = append(w.PckCrl.RevokedAt, Wide.NotBefore.Add(time.Duration(s.Intn(int(span)))*time.Second))
